@@ -258,7 +258,7 @@ theorem C16_walk_frame (g : Grammar) (top n : Nat) (s : PState)
 /-- **Walking = dropping everything.**  The machine that clears the way Arpeggio does (`realWalk`) is the
 machine `real` of the theorems above: same outcomes, same surviving states, for every history from every
 state with empty caches — on every world whose walked repetitions have `Match` separators (`walkOK`,
-evaluated by the driver on every dumped pool; textX's grammar language admits no other separators). -/
+evaluated by the driver on every dumped pool; textX's grammar language allows no other separators). -/
 theorem C16_walk_run (W : World) (sem : Sem) (hW : W.walkOK = true) (ops : List Op) (H : Hidden)
     (hc : H.cache = []) : run realWalk W sem ops H = run real W sem ops H :=
   run_walk W sem hW ops H hc
